@@ -509,6 +509,7 @@ func c17StressChild(c *Check) {
 			os.Exit(3)
 		}
 	}
+	var cteWant []string
 	for round := 0; round < rounds; round++ {
 		// separate unmarshalers skipping unknown fields (edges, nodes, containers, arrays)
 		var wg0 sync.WaitGroup
@@ -534,6 +535,34 @@ func c17StressChild(c *Check) {
 			}()
 		}
 		wg0.Wait()
+		// separate CTE unmarshalers on well-formed and malformed text (the parser's error handling is per parse)
+		ctexts := []string{"c0\n[1 2 = 3]", "c0\n[1 2 3]", "c0\n{\"a\" = 1 \"b\"}", "c0\n{\"a\" = [1 2] \"b\" = \"x\"}", "c0\n[1 2", "c0\n@(1 2)", "c0\n[\"a\" \"b\" 1.5 true]", "c0\n[1 ] ]"}
+		if round == 0 {
+			cteWant = make([]string, len(ctexts))
+			for i, t := range ctexts {
+				v, err := ce.UnmarshalFromCTEDocument([]byte(t), nil, cfg)
+				cteWant[i] = fmt.Sprintf("%s|%v", absValue(v), err != nil)
+			}
+		}
+		var wg1 sync.WaitGroup
+		for gi := 0; gi < 8; gi++ {
+			gi := gi
+			wg1.Add(1)
+			go func() {
+				defer wg1.Done()
+				u := ce.NewCTEUnmarshaler(cfg)
+				for k := 0; k < 24; k++ {
+					i := (k + gi) % len(ctexts)
+					v, err := u.UnmarshalFromDocument([]byte(ctexts[i]), nil)
+					if g := fmt.Sprintf("%s|%v", absValue(v), err != nil); g != cteWant[i] {
+						fmt.Printf("STRESS-MISMATCH separate CTE unmarshalers, text %q: %s vs %s\n", ctexts[i], g, cteWant[i])
+						return
+					}
+				}
+				fmt.Println("STRESS-OK")
+			}()
+		}
+		wg1.Wait()
 		// shared sessions, first use of the types races on the caches
 		var isess iterator.Session
 		var bsess builder.Session
